@@ -2,7 +2,7 @@
 # ingest_seed.sh <prop> <n>: copies a round-3 seed from /tmp/seedout/<prop>/<n> to seeded/<prop>/<n>, records the commit it
 # was written against, confirms it independently and runs the property's check against it.
 cd /verif
-p=$1; n=$2; src=/tmp/seedout/$p/$n; dst=seeded/$p/$n
+p=$1; n=$2; src=${SRC:-/tmp/seedout}/$p/$n; dst=seeded/$p/$n
 [ -f $src/patch.diff ] || { echo "no $src/patch.diff"; exit 2; }
 mkdir -p $dst && cp $src/patch.diff $src/meta.json $dst/ && cp $src/*_test.go $dst/ 2>/dev/null
 git -C /repo rev-parse HEAD > $dst/base
